@@ -71,9 +71,9 @@ func TestC01(t *testing.T) {
 			"txn2":       func(t *rapid.T) { mc.ActTxn(t, cfg) },
 			"prefill":    mc.prefillAction,
 			"bulkDelete": func(t *rapid.T) { mc.ActBulkDelete(t); mc.sampleCheck(t) },
-			"lateColumn": mc.ActLateColumn,
+			"lateColumn": func(t *rapid.T) { mc.ActLateColumn(t) },
 			"zigzag":     mc.zigzagAction,
-			"dropColumn": mc.ActDropColumn,
+			"dropColumn": func(t *rapid.T) { mc.ActDropColumn(t) },
 		})
 		mc.CheckFull(t, false)
 		mc.CheckFull(t, true)
